@@ -209,3 +209,23 @@ _ADDED8 = {
 }
 for _pid, _t in _ADDED8.items():
     CLAIMS[_pid]["text"] += " Round 8 and fourth hunt: " + _t
+
+_ADDED9 = {
+    "C01": "the constant-condition branch of ?: (R-CHOICECONST) and every MaximumOperation::Do overload returns the maximum of all its arguments (R-MAXARGS).",
+    "C02": "EnumView reads do not sign-extend unsigned enums (R-SIGNEXT converse clause).",
+    "C03": "values shifted by a width-dependent amount have the view's own type (R-SHIFTOPERAND).",
+    "C04": "every partial-output guard is `!allow_partial_output() || X.IsAggregate() || X.Ok()` (R-PARTIALGUARD).",
+    "C05": "R-MAXARGS.",
+    "C07": "the view class befriends its other-storage instantiations while generated code reaches their private members (R-CROSSFRIEND); reserved-word checks reach the list on every path (R-NAMEDKINDS).",
+    "C09": "Parser.mark_error reports success only after storing the code or finding it stored (R-MARKERROR).",
+    "C10": "Indent covers the added whitespace and a mid-file Dedent is zero-width at the end of the new leading whitespace (R-INDENT column clause).",
+    "C12": "scopes only grow (R-SCOPEFILL); traversals start at the IR the pass was given (R-TRAVROOT).",
+    "C13": "attribute verifiers leave early only for an absent attribute or after reporting (R-VERIFYEXIT); R-TRAVROOT.",
+    "C14": "R-VERIFYEXIT; R-NAMEDKINDS must-reach clause; R-TRAVROOT.",
+    "C15": "R-TRAVROOT.",
+    "C16": "location flags are never read under a truth test of the location (R-LOCFLAGS).",
+    "C18": "every location built by from_str carries every flag it parsed (R-SRCLOC).",
+    "C19": "name-keyed arms are generated once per name, never under a membership test (R-NAMEARMS).",
+}
+for _pid, _t in _ADDED9.items():
+    CLAIMS[_pid]["text"] += " Round 9: " + _t
